@@ -342,6 +342,9 @@ def replay(ctx, failing):
         why = None
         if b & 1 and b & 2 and not b & 4:
             why = oracle_plain(ex, after) or oracle_reparse(ex, after)
+        elif b & 1 and b & 4:
+            why = oracle_numbers(prog, line_of, inp.get('lineno', 1), bool(b & 8), after, bool(b & 2))
+        print('oracle: %s' % (why or 'faithful'))
         return after != before or bool(why)
     if ex is not None and inp.get('op') == 'cfg':
         cfgc, cfgo, argc, argo, linenos = inp['options']
